@@ -81,7 +81,11 @@ def execute(prog, choose, line_level=False):
                     hdl[h] = o
         ctx = None
         if prog.get("buffered") is not None:
-            ctx = spec.cls.buffer_backend(prog["buffered"].get("cap"))
+            cap = prog["buffered"].get("cap")
+            if cap == "mid":
+                # room for ONE file's document (also after a small growth) but not for two
+                cap = 1 if spec.strategy == "memory" else int(1.6 * len(json.dumps(init)))
+            ctx = spec.cls.buffer_backend(cap)
             ctx.__enter__()
         history = out["history"]
 
@@ -104,7 +108,7 @@ def execute(prog, choose, line_level=False):
                     if prog.get("sabotage") and tname == "t1":
                         pass
             return body
-        s = sched.Scheduler(choose, line_level=line_level)
+        s = sched.Scheduler(choose, line_level=line_level, coarse=bool(prog.get("coarse")))
         for tname, ops in prog["threads"].items():
             s.spawn(tname, mk(tname, ops))
         if prog.get("break_dir") :
@@ -183,12 +187,13 @@ def _noload(x):
 # ------------------------------------------------------------------ exploration of one program
 def explore_program(args):
     prog, bound, max_runs, line_level = args
+    max_runs = max(max_runs, prog.get("max_runs", 0))
     outs = []
     seen = set()
 
     def run_once(choose):
         return execute(prog, choose, line_level)
-    ex = sched.Explorer(run_once, bound=bound, max_runs=max_runs)
+    ex = sched.Explorer(run_once, bound=bound, max_runs=max_runs, by_preemptions=bool(prog.get("coarse")), seed=common.seed())
     n = 0
     for res, choices in ex.explore():
         n += 1
@@ -430,7 +435,7 @@ def check_C13(tier):
     rnd = random.Random(common.seed())
     run.cov["rule"] = ("programs = two threads issuing buffered mutators (setitem delitem update setdefault append extend "
                        "insert reset clear) inside one backend-wide buffered context with capacity in {None (large), 0, "
-                       "1}, on distinct files, the same object, or two objects on one file; " + KNOWN_NOTE.format(b=2) +
+                       "1}, on distinct files, the same object, or two objects on one file, plus a reader on a thread-private object of another file next to two consecutive mutators; " + KNOWN_NOTE.format(b=2) +
                        "; no operation may raise, no deadlock, after the exit each file's content must be linearizable "
                        "(TLC, Lin.tla) and the reported buffer size 0")
     run.assumptions += ["JSON backend, both buffering strategies", "preemption bound 2 at primitive granularity"]
@@ -466,6 +471,17 @@ def check_C13(tier):
             for cap in (None, 0):
                 progs.append({"name": f"{cls}[cap={cap},child]:{h}.{a['op']}||other.{b['op']}", "cls": cls,
                               "buffered": {"cap": cap}, "threads": {"t1": [(h, a)], "t2": [("other", b)]}})
+    # a reader on a thread-private object bound to ANOTHER file: with a small capacity its read brings that file into
+    # the buffer and forces a flush of the first file while the other thread is between two mutators of it
+    for cls, kind in (("BufferedJSONDict", "d"), ("MemoryBufferedJSONDict", "d"), ("BufferedJSONList", "l")):
+        mut = [m for m in (MUT_D if kind == "d" else MUT_L) if m["op"] in ("setitem", "update", "setdefault", "append", "extend", "insert")]
+        reads = READ_D if kind == "d" else READ_L
+        combos = [(r, a, b) for r in reads for a in mut for b in mut]
+        for (r, a, b) in rnd.sample(combos, min(len(combos), 10 if tier == "quick" else 80)):
+            for cap in (0, "mid"):
+                progs.append({"name": f"{cls}[cap={cap},private-reader]:other.{r['op']}(read)||root.{a['op']};root.{b['op']}",
+                              "cls": cls, "buffered": {"cap": cap}, "two_files": True, "coarse": True, "max_runs": 400,
+                              "threads": {"t1": [("other", r)], "t2": [("root", a), ("root", b)]}})
     results = run_programs(run, progs, 2, 60 if tier == "quick" else 300)
     judge(run, "C13", results, ("lin", "deadlock", "exit", "size", "leak"))
     mres = threads_model(run, "C13", ["C09_WritersLinearizable"], tier, buffered_modes=(True,))
@@ -564,6 +580,38 @@ def sequential_lock_checks(run):
                            "detail": f"after a save that raised (directory removed, raised={raised}) locks are still held: {held}"})
         for lk in sched.all_locks(L):
             lk.owner, lk.count = None, 0
+        # --- a public call that has RETURNED holds no lock, also when what it returned is a live iterator / view
+        env.reset_class_state()
+        r0 = env.JSONFile(spec)
+        try:
+            r0.write_raw({"a": [1, 2, 3], "b": {"x": 1, "y": 2}, "c": 3} if spec.kind == "d" else [[1, 2, 3], {"x": 1, "y": 2}, 3])
+            o = r0.new_object()
+            nested_l = o["a"] if spec.kind == "d" else o[0]
+            nested_d = o["b"] if spec.kind == "d" else o[1]
+            keep = []
+            probes = [("iter(root)+next", lambda: keep.append(iter(o)) or next(keep[-1])),
+                      ("iter(nested list)+next", lambda: keep.append(iter(nested_l)) or next(keep[-1])),
+                      ("iter(nested dict)+next", lambda: keep.append(iter(nested_d)) or next(keep[-1])),
+                      ("reversed(nested list)+next", lambda: keep.append(reversed(nested_l)) or next(keep[-1])),
+                      ("items() view+next", lambda: keep.append(iter(nested_d.items())) or next(keep[-1])),
+                      ("values() view+next", lambda: keep.append(iter(nested_d.values())) or next(keep[-1])),
+                      ("keys() view+next", lambda: keep.append(iter(nested_d.keys())) or next(keep[-1]))]
+            for pname, fn in probes:
+                try:
+                    fn()
+                except Exception:  # noqa: BLE001 - only lock state matters here
+                    pass
+                run.case(("partial-iteration", cls_name, pname))
+                held = [repr(lk) for lk in sched.all_locks(L) if not lk.free()]
+                if held:
+                    run.violation({"op": "partial-iteration", "cls": cls_name, "aspect": "leak",
+                                   "detail": f"after {pname} returned (iterator kept alive) locks are still held: {held}"})
+                    break
+            for lk in sched.all_locks(L):
+                lk.owner, lk.count = None, 0
+            del keep
+        finally:
+            r0.dispose()
         # --- filename re-pointing must not break the other object
         env.reset_class_state()
         r1, r2 = env.JSONFile(spec), env.JSONFile(spec)
